@@ -25,3 +25,4 @@ def rules(ctx):
     S.survey_residue_rules(ctx)
     S.leaf_width_rules(ctx)
     S.relocate_tree_rules(ctx)
+    S.relocation_content_rules(ctx)
